@@ -208,10 +208,9 @@ func (s *SpokFile) run(stream iostream.IOStream, runner shell.Runner, force bool
 		return nil, fmt.Errorf("Could not load spok cache file at %q: %s", cachePath, err)
 	}
 
-	// Whether or not we want to update the cache after running e.g.
-	// if there were no file dependencies to update or if the task
-	// did not succeed
-	updateCache := true
+	// Whether or not any task's cached digest changed during this run, in which
+	// case the cache needs writing back to disk
+	cacheChanged := false
 
 	for _, taskToRun := range runOrder {
 		// Gather up all the files to be hashed into a single slice
@@ -230,21 +229,10 @@ func (s *SpokFile) run(stream iostream.IOStream, runner shell.Runner, force bool
 
 		s.logger.Debug("Task %s depends on %d files", taskToRun.Name, len(toHash))
 
-		// If the task did not declare any file dependencies, let's not
-		// update the cache, this way it will always run
-		if len(toHash) == 0 {
-			updateCache = false
-		}
-
-		var hasher hash.Hasher
-		if force {
-			hasher = hash.AlwaysRun{}
-		} else {
-			hasher = hash.New()
-		}
-
+		// The digest is always the real one so that a successful run can be recorded
+		// against the state of the files it ran on, force only decides whether the task runs
 		hashStart := time.Now()
-		currentDigest, err := hasher.Hash(toHash)
+		currentDigest, err := hash.New().Hash(toHash)
 		if err != nil {
 			return nil, err
 		}
@@ -264,31 +252,43 @@ func (s *SpokFile) run(stream iostream.IOStream, runner shell.Runner, force bool
 		skipped := false
 
 		switch {
-		case cachedDigest == "" || currentDigest != cachedDigest:
-			// The digest is either empty or out of date, in which case the action to be taken is the same
-			// update the cache digest and run the task
-			if updateCache {
-				cachedState.Set(taskToRun.Name, currentDigest)
-			}
+		case force || len(toHash) == 0 || cachedDigest == "" || currentDigest != cachedDigest:
+			// The task was forced, has no file dependencies (so always runs), has never succeeded
+			// or its dependencies have changed, in which case the action to be taken is the same
 			result, err = taskToRun.Run(runner, stream, s.Env())
 			if err != nil {
 				return nil, fmt.Errorf("Task %q encountered an error: %w", taskToRun.Name, err)
 			}
 
-		case currentDigest == cachedDigest:
-			// This task has been run before and its digest has not changed, therefore
+			// Each task's digest is recorded on its own, and only once that task has succeeded
+			// on the files the digest describes. A task with no file dependencies gets no digest
+			// so it always runs, and a task that failed on the very files its digest describes
+			// loses it so it runs again next time
+			newDigest := cachedDigest
+			switch {
+			case len(toHash) == 0:
+				newDigest = ""
+			case result.Ok():
+				newDigest = currentDigest
+			case currentDigest == cachedDigest:
+				newDigest = ""
+			}
+			if newDigest != cachedDigest {
+				cachedState.Set(taskToRun.Name, newDigest)
+				cacheChanged = true
+			}
+
+		default:
+			// This task has succeeded before and its digest has not changed, therefore
 			// we don't need to run it again
 			skipped = true
-			updateCache = false
 		}
 
 		// Gather up all the task results
 		results = append(results, task.Result{CommandResults: result, Task: taskToRun.Name, Skipped: skipped})
 	}
 
-	// Only update the cache if force was not set, the task declares file dependencies
-	// and the task run was successful
-	if !force && updateCache && results.Ok() {
+	if cacheChanged {
 		s.logger.Debug("Updating cached state")
 		if err := cachedState.Dump(cachePath); err != nil {
 			return nil, err
